@@ -79,7 +79,9 @@ func splitOrigin(u string) (scheme, hostport, rest string) {
 var variants = []variant{
 	{"exact", func(a string, _ *rand.Rand) (string, bool) { return js(a), true }},
 	{"trailing-slash-added", func(a string, _ *rand.Rand) (string, bool) { return js(a + "/"), !strings.HasSuffix(a, "/") }},
-	{"trailing-slash-removed", func(a string, _ *rand.Rand) (string, bool) { return js(strings.TrimSuffix(a, "/")), strings.HasSuffix(a, "/") }},
+	{"trailing-slash-removed", func(a string, _ *rand.Rand) (string, bool) {
+		return js(strings.TrimSuffix(a, "/")), strings.HasSuffix(a, "/")
+	}},
 	{"host-case", func(a string, r *rand.Rand) (string, bool) {
 		s, h, rest := splitOrigin(a)
 		h2 := swapCase(h, h == strings.ToLower(h))
